@@ -220,6 +220,11 @@ inductive GRow (L : Type)
   | blank (n : Int)                   -- `b" " * n`
 deriving DecidableEq, Repr
 
+/-- the same row with another disguise (blank rows carry none) -/
+def GRow.setDisguise {L} (d : Nat) : GRow L → GRow L
+  | .line l _ => .line l d
+  | .blank n => .blank n
+
 /-- the `disguise` multiplier: `(canvas state + widget state) * (kitty or iterm2-on-konsole)` -/
 def disguiseCount (canvasState widgetState : Nat) (isKitty isITerm2 onKonsole : Bool) : Nat :=
   (canvasState + widgetState) * (if isKitty || (isITerm2 && onKonsole) then 1 else 0)
